@@ -59,12 +59,16 @@ class Run:
         self.channels = []
         self.on_event = None
         self.dead = False
+        self.times = []
+        self.latency = None
+        self.on_setup_done = None
 
     # -- trace ---------------------------------------------------------------
     def ev(self, *a):
         if self.dead:
             return        # a stale simulator object of a finished run (finalized by the GC)
         self.trace.append(a)
+        self.times.append(self.loop.time())
         if self.on_event is not None:
             self.on_event(a)
 
